@@ -285,6 +285,29 @@ func waitGone(node gen.Node, pid gen.PID) bool {
 	return false
 }
 
+// waitHandled: the callee (process or meta process) is asleep on an empty mailbox again, or gone
+func waitHandled(node gen.Node, pid gen.PID, meta gen.Alias, viaMeta bool) {
+	deadline := time.Now().Add(stallLimit)
+	for time.Now().Before(deadline) {
+		if viaMeta {
+			info, err := node.MetaInfo(meta)
+			if err != nil || (info.State == gen.MetaStateSleep && info.MailboxQueues.Main == 0 && info.MailboxQueues.System == 0) {
+				return
+			}
+		} else {
+			info, err := node.ProcessInfo(pid)
+			if err != nil {
+				return
+			}
+			q := info.MailboxQueues
+			if info.State == gen.ProcessStateSleep && q.Main == 0 && q.System == 0 && q.Urgent == 0 {
+				return
+			}
+		}
+		time.Sleep(100 * time.Microsecond)
+	}
+}
+
 func runCase(node gen.Node, caseNo int, c Case) *Result {
 	res := &Result{}
 	stall := func(f string, a ...any) *Result {
@@ -451,6 +474,9 @@ func runCase(node gen.Node, caseNo int, c Case) *Result {
 						// the reply is sent by act.Actor / the meta process itself (result not observable)
 						ev("EResp %d %s %d false", sr.callee, coqRef(sr.ref), pay)
 						res.Sends = append(res.Sends, -1)
+						// HandleCall has only been ENTERED: the reply leaves when it returns. Do not let the next
+						// step of the script overtake it (seen on a loaded machine: a helper's reply arrived first)
+						waitHandled(node, ci.pid, ci.meta, s.Via == "meta")
 					}
 					if s.Mode == "syncstop" {
 						if !waitGone(node, ci.pid) {
